@@ -304,4 +304,12 @@ if __name__ == "__main__":
     except env.HarnessError as e:
         sys.stderr.write(f"HARNESS-ERROR: {e}\n")
         rc = 2
+    except (KeyboardInterrupt, SystemExit):
+        raise
+    except BaseException:  # noqa: BLE001 - anything that escapes here is a failure of the machinery (a broken dependency, a bug of mine),
+        # never a statement about pendulum: exit 2, and no VIOLATION line (an uncaught exception would exit 1)
+        import traceback
+        traceback.print_exc()
+        sys.stderr.write("HARNESS-ERROR: the runner itself failed\n")
+        rc = 2
     sys.exit(rc)
